@@ -41,6 +41,9 @@ CHECKS = {
     "C13": ("model_checking", GRID + "; plus conformance of every epoch of scripted real groups to the reference (shadow joiner)",
             "Every derivation (key schedule, secret tree, per-generation keys, PSK chain, exporter, ExpandWithLabel) is compared with an independent RFC 9420 implementation over an enumerated input grid for every suite of every provider, and every epoch of scripted real groups is re-derived by the reference from the Welcome's joiner secret / the previous init secret and compared with what the members hold, including transcript hashes and tags recomputed from wire bytes.",
             "Trusted: reference::keysched on sha2/hmac; hook derive::* (thin wrappers over the crate-private functions) and verif_epoch_keys (read-only).", "DESIGN.md 2/C13"),
+    "C16": ("model_checking", MC + "; observers (ExternalGroup) at every start epoch and jitter setting are driven along every explored history",
+            "On an exhaustive history traversal with public handshake messages, observers created at every epoch with every max_epoch_jitter setting must accept exactly what members accept, hold the members' context/roster/tree after every commit (also across snapshot/load), refuse corrupted, replayed and unresolvable commits, let ciphertexts through exactly inside the configured window without ever panicking, and have their external-sender proposals accepted and committed by members.",
+            "Trusted: explorer, reference framing parser (signature offset). Same bounds as C01 (depth 3 quick / 4 thorough).", "DESIGN.md 2/C16"),
     "C17": ("model_checking", "exhaustive enumeration of (old-group shape, re-init/branch, creator, successor member set, key-package order) cases executed from scratch on the real implementation, judged by an identity-set predicate",
             "Old-group gallery (dense, interior blank leaf, re-keyed member, external-commit joiner) x re-init / branch x every creator x every successor member set (all subsets, superset by an outsider, each member replaced) x key-package orders: creation and joining succeed exactly when the identity sets are equal (re-init) / a subset (branch); outsiders, ex-members and cross-used Welcomes are refused; the old group refuses commits after the re-init.",
             "Trusted: explorer. 6 identities, 6 old-group shapes.", "DESIGN.md 2/C17"),
